@@ -2,6 +2,7 @@ import BoltonsVerif.C10.Backends
 import BoltonsVerif.C10.Prio
 import BoltonsVerif.C10.Heap
 import BoltonsVerif.C10.DriverCorrect
+import BoltonsVerif.C10.Plain
 /-
 C10 — property theorems (statements + short derivations from Proofs/Queue/Backends.lean)
 and non-vacuity examples.
@@ -197,6 +198,36 @@ theorem lawful_backends_observationally_equal {β β' : Type} (B : Backend T β)
 theorem sorted_backend_always_sorted (limit : Nat → Nat) (ops : List (Op T)) :
     Asc Entry.lt (PQ.run (sortedBackend limit) ops).1.pq.toList :=
   (run_sim (sorted_lawful limit) ops).1.wf.2
+
+/-- `SortedPriorityQueue` over the BarrelList IS `SortedPriorityQueue` over a plain Python list (what
+    `queueutils` uses when `BList` cannot be imported): for every history and EVERY size-limit function
+    the return values are the same, and after the history the items of the BarrelList - tombstones
+    included, in order - are exactly the plain list; `_entry_map` and the counter agree too -/
+theorem barrel_queue_is_plain_list_queue (limit : Nat → Nat) (ops : List (Op T)) :
+    (PQ.run (sortedBackend limit) ops).2 = (PQ.run plainBackend ops).2 ∧
+    (PQ.run (sortedBackend limit) ops).1.pq.toList = (PQ.run plainBackend ops).1.pq ∧
+    (PQ.run (sortedBackend limit) ops).1.emap = (PQ.run plainBackend ops).1.emap ∧
+    (PQ.run (sortedBackend limit) ops).1.counter = (PQ.run plainBackend ops).1.counter :=
+  ⟨(run_rel (sorted_sim_plain limit) ops).2, (run_rel (sorted_sim_plain limit) ops).1.1.2,
+    (run_rel (sorted_sim_plain limit) ops).1.2.1, (run_rel (sorted_sim_plain limit) ops).1.2.2⟩
+
+/-- the queue does not depend on `BarrelList._size_factor` / `_cur_size_limit`: any two size-limit
+    functions give the same return values for every history AND the same backend content (as a flat
+    list, tombstones included) - only the cut into sub-lists differs -/
+theorem sorted_queue_independent_of_size_limit (limit limit' : Nat → Nat) (ops : List (Op T)) :
+    (PQ.run (sortedBackend limit) ops).2 = (PQ.run (sortedBackend limit') ops).2 ∧
+    (PQ.run (sortedBackend limit) ops).1.pq.toList = (PQ.run (sortedBackend limit') ops).1.pq.toList ∧
+    (PQ.run (sortedBackend limit) ops).1.emap = (PQ.run (sortedBackend limit') ops).1.emap := by
+  have h := barrel_queue_is_plain_list_queue limit ops
+  have h' := barrel_queue_is_plain_list_queue limit' ops
+  exact ⟨h.1.trans h'.1.symm, h.2.1.trans h'.2.1.symm, h.2.2.1.trans h'.2.2.1.symm⟩
+
+/-- the sub-list structure never matters to `insort`: `bisect_right` finds the same insertion point in
+    any two BarrelLists holding the same items -/
+theorem barrel_bisect_independent_of_structure {α : Type} (lt : α → α → Bool) (x : α) (b b' : BL α)
+    (hb : b.ok) (hb' : b'.ok) (h : b.toList = b'.toList) :
+    bisectRight lt x b = bisectRight lt x b' :=
+  bisectRight_congr lt x b b' hb hb' h
 
 /-- the compiled driver used by the correspondence check evaluates exactly `PQ.run` (the function
     all theorems here are about), and therefore prints the specification's outputs -/
@@ -523,6 +554,13 @@ example : (PQ.run (sortedBackend (fun _ => 2)) exOps).2 =
      .task 3, .task 3, .task 2, .task 5, .task 1, .indexError, .dflt 7, .keyError] := by decide
 
 example : (PQ.run listHeap exOps).2 = (PQ.run (sortedBackend (fun _ => 2)) exOps).2 := by decide
+
+/-- two size limits: different sub-list structure, same items, same answers (and the plain list) -/
+example : (PQ.run (sortedBackend (fun _ => 2)) (exOps.take 6)).1.pq.lists
+      ≠ (PQ.run (sortedBackend (fun _ => 100)) (exOps.take 6)).1.pq.lists ∧
+    (PQ.run (sortedBackend (fun _ => 2)) (exOps.take 6)).1.pq.toList
+      = (PQ.run plainBackend (exOps.take 6)).1.pq ∧
+    (PQ.run plainBackend exOps).2 = (PQ.run (sortedBackend (fun _ => 2)) exOps).2 := by decide
 
 /-- the backend really is split into several sub-lists in that history -/
 example : (PQ.run (sortedBackend (fun _ => 2)) (exOps.take 6)).1.pq.lists.length = 5 := by decide
